@@ -366,6 +366,7 @@ type crashNode struct {
 	epochs   map[int]*epochInfo
 	lastEp   int
 	stagedAll []*dkg.DBState // every state SaveCurrent stored
+	expanded  map[string]bool // per op: (fin, g, s) states whose reconciling start-up was already killed step by step
 
 	dd       *core.DrandDaemon
 	bp       *core.BeaconProcess
@@ -916,8 +917,17 @@ func (n *crashNode) recoverImageAt(c cut, withChain bool, depth int) string {
 			}
 			cs, tr := cutsFromEvents(c.groups, after, evs, mode)
 			items := []string{"trace:" + strings.Join(tr, ",")}
-			// (not below the torn images of the first level: their key files are those of the step before)
-			if depth < n.restartDepth() && c.torn == "" {
+			// (not below the torn images of the first level: their key files are those of the step before; in the sampled
+			// modes once per distinct state (completed record, group file, share) of an op's crash images)
+			expand := depth < n.restartDepth() && c.torn == ""
+			if expand && depth == 0 && n.tornMode != "all" {
+				k := fin + "|" + gl0 + "|" + sl0
+				if n.expanded[k] {
+					expand = false
+				}
+				n.expanded[k] = true
+			}
+			if expand {
 				for _, c2 := range cs {
 					c2.dkgDb, c2.chain = c.dkgDb, c.chain
 					if c2.torn != "" && depth > 0 {
@@ -1013,6 +1023,9 @@ func crashEngine(args []string, in *bufio.Scanner, out *bufio.Writer) {
 		if len(f) == 0 {
 			continue
 		}
+		if n != nil {
+			n.expanded = map[string]bool{}
+		}
 		res := safely(func() string {
 			switch f[0] {
 			case "init":
@@ -1024,7 +1037,7 @@ func crashEngine(args []string, in *bufio.Scanner, out *bufio.Writer) {
 				per, _ := strconv.Atoi(f[3])
 				seed, _ := strconv.ParseUint(f[4], 10, 64)
 				n = &crashNode{tornMode: tornMode, beaconID: "default", sch: mustScheme(f[1]), period: time.Duration(per) * time.Second,
-					epochs: map[int]*epochInfo{}, ctx: context.Background()}
+					epochs: map[int]*epochInfo{}, ctx: context.Background(), expanded: map[string]bool{}}
 				n.root = tmpDir()
 				n.cfg = filepath.Join(n.root, "live")
 				r := &rng{s: seed}
